@@ -195,6 +195,7 @@ def run(ctx):
     from .c03 import reconstruct_refusals
     reconstruct_refusals(ctx)
     default_identifier_range(ctx)
+    reconstruct_kernel(ctx)
     ep = ctx.anchor(CORE + "keys::evaluate_polynomial")
     if ep:
         v = FnView.get(P, ep)
@@ -206,6 +207,50 @@ def run(ctx):
         ctx.check(good, "RED", ep.key, "skip(1)+first",
                   "evaluate_polynomial (Horner) must run over coefficients[1..] from the highest down and add coefficients[0] "
                   "after it (found %s)" % ({k: (fmt(x) if isinstance(x, tuple) else x) for k, x in sv.items()} if sv else None), ep.loc)
+
+
+def reconstruct_kernel(ctx):
+    """any t shares reconstruct the key: reconstruct returns SigningKey{ sum over EVERY given package of
+    lambda_i(0; identifiers of all given packages) * s_i }, from zero, with no package skipped (loop or fold form)."""
+    P = ctx.prog
+    f = ctx.anchor(CORE + "keys::reconstruct")
+    if not f:
+        return
+    v = FnView.get(P, f)
+    oks = ok_values(f, v)
+    good = len(oks) == 1
+    det = ""
+    if good:
+        S = unwrap_newtypes(get_field(oks[0], "scalar")) if oks[0][0] == "agg" else oks[0]
+        r = reduction_of(P, f, v, S)
+        det = fmt(S)[:200]
+        good = r is not None and r["source"] == ("arg", 1) and len(r["init"]) == 1 and is_call(r["init"][0], name="zero") and \
+            len(r["steps"]) == 1 and not r["after"] and not r["skippable"] and not r["early_exit"]
+        if good:
+            st = r["steps"][0]
+            good = is_call(st, name="add") and len(st[2]) == 2 and st[2][0] == ACC and is_call(st[2][1], name="mul") and len(st[2][1][2]) == 2
+            if good:
+                a, b = st[2][1][2]
+                all_ids = dedup_of(P, f, v, arg(1))
+                lam = lambda t: t[0] == "ok" and is_call(t[1], name="compute_lagrange_coefficient") and all_ids(t[1][2][0]) and \
+                    t[1][2][1][0] == "agg" and t[1][2][1][3] == "None" and is_field(strip_newtype_fields(t[1][2][2]), "KeyPackage", "identifier") and \
+                    strip_newtype_fields(t[1][2][2])[1] == ITEM
+                shr = lambda t: is_field(strip_newtype_fields(t), "KeyPackage", "signing_share") and strip_newtype_fields(t)[1] == ITEM
+                good = (lam(a) and shr(b)) or (lam(b) and shr(a))
+                # the identifier set handed to the coefficient holds the packages' identifiers (one per package)
+                if good:
+                    ids = (a if lam(a) else b)[1][2][0]
+                    comps = map_components(P, f, v, ids) if ids[0] == "mut" else None
+                    proj = None
+                    if is_call(ids, name="collect") and ids[2]:
+                        m = mapping_of(P, f, v, ids[2][0])
+                        proj = m["val"] if m and m["key"] is None else None
+                    elif comps and len(comps) == 1 and comps[0][0] == "each":
+                        proj = comps[0][3]
+                    good = proj is not None and is_field(strip_newtype_fields(proj), "KeyPackage", "identifier") and strip_newtype_fields(proj)[1] == ITEM
+    ctx.check(good, "AGREE", f.key, "secret==sum(lambda_i(0; all ids)*s_i)",
+              "reconstruct must return the sum, over every given key package, of its Lagrange coefficient at 0 (over the identifiers of "
+              "all given packages) times its signing share: %s" % det, f.loc)
 
 
 def horner_parts(P, ep, v):
